@@ -217,7 +217,41 @@ def _job_c15(args):
             calls.append(observe(dec, payload, 0))
             if calls[-1]["outcome"] == "hang":
                 break
+        # decode_message with every kind of message object the library has (C15 names both entry points)
+        if calls and calls[-1]["outcome"] != "hang":
+            for msg in message_objects(payload):
+                dec = AutoDecoder()
+                if primers[-1][1] is not None and len(calls) % 2:
+                    guarded(dec.decode_message_payload, primers[-1][1])
+                calls.append(observe(dec, payload, 0, message=msg))
         out.append({"id": stable_id("c15", name, payload.hex()), "canary": "", "names": [name], "calls": calls})
+    return out
+
+
+def message_objects(payload: bytes) -> list:
+    """DlmsMessage, HdlcFrame (intact and with a damaged FCS) and DataReadout (good and damaged identification lines) around a payload."""
+    from han.common import DlmsMessage
+    from han.dlde import DataReadout
+    from han.hdlc import HdlcFrameReader
+    from .drv_hdlc import mkframe
+    out = []
+    try:
+        out.append(DlmsMessage(payload))
+    except Exception:  # noqa: BLE001
+        pass
+    if 0 < len(payload) <= 2030:
+        fr = mkframe(info=payload)
+        for wire in (fr, fr[:-1] + bytes([fr[-1] ^ 1])):
+            try:
+                out += HdlcFrameReader(False, False).read(b"\x7e" + wire + b"\x7e")[:1]
+            except Exception:  # noqa: BLE001
+                pass
+    if payload and all(b < 128 for b in payload) and b"!" not in payload and len(payload) < 4000:
+        for ident in (b"/ABC5id", b"/abc5id", b"/ABC5" + b"x" * 17, b"/ABCxid", b"/", b"/ABC5\xffid", b"/ABC5\\2\\3id"):
+            try:
+                out.append(DataReadout(ident + b"\r\n" + payload + b"!\r\n"))
+            except Exception:  # noqa: BLE001  (constructor's own refusal)
+                pass
     return out
 
 
